@@ -220,6 +220,33 @@ pub fn c09(opts: &Opts, out: &mut Out) {
         }
         classes.insert((100 + k, 0));
     }
+    // members that share one recovery seed but are proofs for different statements (a wallet scanning its own
+    // outputs): each gets its own mask
+    {
+        let shared = Scalar::random(&mut rng);
+        let mut pool2: Vec<(Inst, Stmt, Proof)> = vec![];
+        for i in 0..5usize {
+            let mut inst = fmrun::random_inst([4usize, 4, 8, 4, 4][i], 1, [1usize, 2, 1, 1, 4][i], t, i + 2, true, &mut rng);
+            distinct_blindings(&mut inst, &mut rng);
+            inst.seed = Some(if i == 3 { Scalar::random(&mut rng) } else { shared });
+            let stmt = inst.statement();
+            let proof = inst.prove(&mut rng).unwrap();
+            pool2.push((inst, stmt, proof));
+        }
+        // members 0, 1, 3, 4 have 4 bits; 2 has 8 bits and is used alone with a copy of itself under another context
+        for order in [vec![0usize, 1], vec![1, 0], vec![0, 3, 1], vec![0, 1, 4], vec![4, 1, 0, 3], vec![0, 0, 1, 1], vec![1, 4, 1, 0, 4]] {
+            let stmts: Vec<Stmt> = order.iter().map(|i| pool2[*i].1.clone()).collect();
+            let proofs: Vec<Proof> = order.iter().map(|i| pool2[*i].2.clone()).collect();
+            for a in [VerifyAction::RecoverAndVerify, VerifyAction::RecoverOnly] {
+                let mut ts: Vec<_> = order.iter().map(|i| pool2[*i].0.transcript()).collect();
+                let r = Proof::verify_batch(&mut ts, &stmts, &proofs, a);
+                let got = masks_of(&r);
+                let expect: Vec<Option<Vec<Scalar>>> = order.iter().map(|i| Some(pool2[*i].0.blindings[0].clone())).collect();
+                out.oracle("C09:batch-positions", got.as_ref() == Some(&expect), &format!("shared-seed batch order={:?} action={:?}", order, a), "members sharing one seed: i-th result is not the i-th member's mask");
+            }
+            classes.insert((2000 + order.len(), order[0]));
+        }
+    }
     // batches beyond the internal chunk size(s): every position checked
     let big_sizes: Vec<usize> = if opts.thorough { vec![257, 513, 600, 769, 1025] } else { vec![257, 513, 600] };
     for k in big_sizes {
